@@ -7,3 +7,4 @@
 import ForsysModel.Props.C11
 import ForsysModel.Props.C11mesh
 import ForsysModel.Props.C11merge
+import ForsysModel.Props.C11more
